@@ -277,12 +277,21 @@ func TestVerifC09(t *testing.T) {
 		if rnd.Intn(4) == 0 {
 			prog = append(prog, midClean(), "read 0 u")
 		}
+		if rnd.Intn(3) == 0 {
+			// the server restarts before the cleaner runs: what a segment knows about itself (first /
+			// last write time, counts, position) is then what open() reconstructs from its files
+			res.Dist("reopen-before-clean")
+			prog = append(prog, "reopen")
+		}
 		prog = append(prog, fmt.Sprintf("clean %d", 1000+rnd.Intn(int(ts-1000)+60)))
 		if rnd.Intn(3) == 0 {
 			prog = append(prog, fmt.Sprintf("clean %d", 1000+rnd.Intn(int(ts-1000)+60)))
 		}
 		if rnd.Bool() {
 			addAppends(1 + rnd.Intn(3))
+			if rnd.Intn(3) == 0 {
+				prog = append(prog, "reopen")
+			}
 			prog = append(prog, fmt.Sprintf("clean %d", 1000+rnd.Intn(int(ts-1000)+60)))
 		}
 		prog = append(prog, "read 0 u", "reopen", "lastoff 1")
